@@ -30,6 +30,7 @@ type IssueP struct {
 	Ty   string `json:"ty"`
 	Msg  string `json:"msg"`
 	Ph   bool   `json:"ph"` // the message still contains a {{placeholder}}
+	Prm  string `json:"prm"` // the issue's Params, printed with sorted keys
 }
 
 // the data value handed to Parse for the case's front end
@@ -77,6 +78,7 @@ type recorder struct {
 	schema *Node
 	fields []string // root-level visit order observed
 	depth  int
+	warm   bool // warm-up execution on the alternative destination type: nothing is recorded
 }
 
 var cur *recorder
@@ -104,6 +106,9 @@ var idxRe = regexp.MustCompile(`\[(\d+)\]`)
 
 // a user callback fired: classify its argument, abstract the value it saw, log it
 func (r *recorder) callback(ev, kind string, i int, tmpl []string, n *Node, arg any, ctx z.Ctx) int {
+	if r.warm {
+		return 0
+	}
 	iss := ctx.Issue()
 	ipath := iss.Path
 	// destination path: the static template with the slice positions of the issue path filled in
@@ -170,7 +175,66 @@ func (r *recorder) callback(ev, kind string, i int, tmpl []string, n *Node, arg 
 }
 
 func projIssue(key string, i *z.ZogIssue) IssueP {
-	return IssueP{Key: key, Path: i.Path, Code: i.Code, Ty: i.Dtype, Msg: i.Message, Ph: strings.Contains(i.Message, "{{")}
+	prm := ""
+	if len(i.Params) > 0 {
+		prm = fmt.Sprint(i.Params) // fmt prints maps with sorted keys
+	}
+	return IssueP{Key: key, Path: i.Path, Code: i.Code, Ty: i.Dtype, Msg: i.Message, Ph: strings.Contains(i.Message, "{{"), Prm: prm}
+}
+
+// A schema is not tied to one destination type: the same schema object may serve any struct type that matches it.
+// Before the traced run, the schema is executed once against an ALTERNATIVE matching type (same fields and tags,
+// declared in the opposite order), so that anything the schema remembers about the first type it met would show.
+func warmUp(c *Case, sch z.ZogSchema, rec *recorder) {
+	if c.Chain != nil || !hasStruct(c.Schema) || !(c.Mode == "validate" || c.Fe == "map") {
+		return
+	}
+	defer func() {
+		recover() // the traced run is what is judged
+		rec.warm = false
+		rec.events = nil
+		rec.fields = nil
+		rec.depth = 0
+	}()
+	rec.warm = true
+	alt := reflect.New(goTypeAlt(c.Schema))
+	dp := alt.Interface()
+	var data any
+	if c.Mode == "parse" {
+		data = frontEndData(c)
+	}
+	switch s := sch.(type) {
+	case *z.StructSchema:
+		if c.Mode == "parse" {
+			s.Parse(data, dp)
+		} else {
+			s.Validate(dp)
+		}
+	case *z.SliceSchema:
+		if c.Mode == "parse" {
+			s.Parse(data, dp)
+		} else {
+			s.Validate(dp)
+		}
+	case *z.PointerSchema:
+		if c.Mode == "parse" {
+			s.Parse(data, dp)
+		} else {
+			s.Validate(dp)
+		}
+	}
+}
+
+func hasStruct(n *Node) bool {
+	if n.K == "struct" {
+		return true
+	}
+	for _, k := range n.Kids {
+		if hasStruct(k.Node) {
+			return true
+		}
+	}
+	return false
 }
 
 // run one case once; order = wanted insertion order of the root struct's fields (nil = as declared)
@@ -207,6 +271,7 @@ func runOnce(c *Case, order []int, opts ...z.ExecOption) (evs []Event, ret Ret) 
 	}
 	opts = append([]z.ExecOption{z.WithCtxValue("vk", rec.token)}, opts...)
 	ret = Ret{E: "ret", ID: c.ID, Issues: []IssueP{}, First: []IssueP{}}
+	warmUp(c, sch, rec)
 	func() {
 		defer func() {
 			if p := recover(); p != nil {
